@@ -263,9 +263,14 @@ def run(ctx):
                   "reach beyond the dictionary (offset - buffered bytes > dictionary length) must be rejected",
                   observed=[g["raw"] for g in ne])
         # window test selects dictionary access, else OffsetTooBig
-        top = hq.tail_expr(body["body"])
-        okw = top is not None and top.get("k") == "If" and ix.canon(top["cond"]) == "(self.total_output_counter <= (self.window_size as u64))" \
-            and any(e.endswith("OffsetTooBig") for e in ix.error_of(top["else"]))
+        # as a case table (whatever the spelling: if/else or an early-return guard): every result that is not the
+        # OffsetTooBig error is produced under `total_output_counter <= window_size`, and OffsetTooBig exactly otherwise
+        WT = "(self.total_output_counter <= (self.window_size as u64))"
+        NWT = "((self.window_size as u64) < self.total_output_counter)"
+        cases = ix.result_cases()
+        too_big = [c for c in cases if any(e.endswith("OffsetTooBig") for e in ix.error_of(c[2]))]
+        others = [c for c in cases if c not in too_big]
+        okw = len(too_big) == 1 and too_big[0][0] == [NWT] and len(others) >= 2 and all(WT in c[0] for c in others)
         ctx.check(okw, R5, "repeat_from_dict::window-test", body["file"],
                   "dictionary access only while total output <= window size; otherwise OffsetTooBig")
     ctx.guard(R5, "repeat_from_dict", reach)
